@@ -17,13 +17,24 @@ class Socket(base_socket.BaseSocket):
         # likewise, only one WebSocket may complete the upgrade
         self._upgrade_lock = threading.Lock()
 
+    def _queue_end_marker(self):
+        # the marker tells readers of the queue that nothing more will come.
+        # It does not count as pending work: close(wait=True) waits in
+        # queue.join() for the packets to be taken, not for the marker
+        self.queue.put(None)
+        self.queue.task_done()
+
     def poll(self):
         """Wait for packets to send to the client."""
         queue_empty = self.server.get_queue_empty_exception()
         try:
             packets = [self.queue.get(
                 timeout=self.server.ping_interval + self.server.ping_timeout)]
-            self.queue.task_done()
+            if packets[0] is not None:
+                # (the end-of-stream marker is not work that
+                # close(wait=True) waits for: whoever queues it reports it
+                # done at once)
+                self.queue.task_done()
         except queue_empty:
             raise exceptions.QueueEmpty()
         if packets == [None]:
@@ -31,10 +42,10 @@ class Socket(base_socket.BaseSocket):
         while True:
             try:
                 pkt = self.queue.get(block=False)
-                self.queue.task_done()
                 if pkt is None:
-                    self.queue.put(None)
+                    self._queue_end_marker()
                     break
+                self.queue.task_done()
                 packets.append(pkt)
             except queue_empty:
                 break
@@ -140,7 +151,7 @@ class Socket(base_socket.BaseSocket):
             if not abort:
                 self.send(packet.Packet(packet.CLOSE))
             self.closed = True
-            self.queue.put(None)
+            self._queue_end_marker()
             if wait:
                 self.queue.join()
 
@@ -272,7 +283,7 @@ class Socket(base_socket.BaseSocket):
                 self.server.logger.exception('Unknown receive error')
                 break
 
-        self.queue.put(None)  # unlock the writer task so that it can exit
+        self._queue_end_marker()  # unlock the writer task so it can exit
         writer_task.join()
         self.close(wait=False, abort=True,
                    reason=self.server.reason.TRANSPORT_CLOSE)
